@@ -8,6 +8,7 @@ package main
 // decode into a used value vs a fresh one, two band instances.
 
 import (
+	"bytes"
 	"encoding/json"
 	"fmt"
 	"reflect"
@@ -115,7 +116,12 @@ func init() {
 		} else {
 			res = append(res, "frm-ok")
 		}
-		return okStr(strings.Join(res, " ") + " " + fmtFrame(&p)), nil
+		out := okStr(strings.Join(res, " ") + " " + fmtFrame(&p))
+		// a second decode of what is already decoded (commands in place of raw bytes): value or error, never a panic
+		p.DecodeFOptsToMACCommands()
+		p.DecodeFRMPayloadToMACCommands()
+		p.DecodeFOptsToMACCommands()
+		return out, nil
 	}
 	// rawja <key> x<frame>: decode, then join-accept decrypt with any key
 	opTable["rawja"] = func(r *tokReader) (string, error) {
@@ -240,6 +246,57 @@ func init() {
 		s1 := fmtAppCmds(cs)
 		flipAll(buf)
 		return sameOrChanged(s1, fmtAppCmds(cs)), nil
+	}
+	// alias_crypt <key> <frame>: PHYPayload.EncryptFOpts / EncryptFRMPayload / DecryptFRMPayload must leave the byte slices the caller put
+	// into the frame as they were, and the frame must not keep using them afterwards
+	opTable["alias_crypt"] = func(r *tokReader) (string, error) {
+		k, err := r.key()
+		if err != nil {
+			return "", err
+		}
+		p, err := parseFrame(r)
+		if err != nil {
+			return "", err
+		}
+		macPL, isData := p.MACPayload.(*lw.MACPayload)
+		if !isData {
+			return okStr("same"), nil
+		}
+		var mine, before [][]byte
+		for _, pl := range macPL.FRMPayload {
+			if v, ok := pl.(*lw.DataPayload); ok {
+				mine = append(mine, v.Bytes)
+				before = append(before, append([]byte{}, v.Bytes...))
+			}
+		}
+		untouched := func() bool {
+			for i := range mine {
+				if !bytes.Equal(mine[i], before[i]) {
+					return false
+				}
+			}
+			return true
+		}
+		res := "same"
+		encErr := p.EncryptFRMPayload(k)
+		if !untouched() {
+			res = "CHANGED caller-buffer-overwritten"
+		}
+		if encErr == nil && len(mine) > 0 && res == "same" {
+			// the encrypted frame owns its bytes: overwriting the caller's slices afterwards must not show in it
+			s1 := fmtFrame(p)
+			for _, b := range mine {
+				flipAll(b)
+			}
+			if fmtFrame(p) != s1 {
+				res = "CHANGED frame-keeps-using-caller-buffer"
+			}
+			for i := range mine {
+				copy(mine[i], before[i])
+			}
+		}
+		p.DecryptFRMPayload(k)
+		return okStr(res), nil
 	}
 	// alias_enc <frame>: overwrite every encoder output (frame level, text level, every reachable payload) and look at the frame again
 	opTable["alias_enc"] = func(r *tokReader) (string, error) {
